@@ -18,6 +18,11 @@
 //	reference Denied     DROP (REJECT when FilterDenyAction=REJECT)
 //	reference NoVerdict  the walk falls back to the caller with the accept mark clear
 //
+// The same rule objects are rendered by both renderers and (PRNG) first for the other IP version,
+// 15% of the CIDR lists of version-less rules carry an entry of the other family, the reference
+// is evaluated on pristine deep copies taken before the first render, and a render that changes
+// a rule it was given is reported as render-mutates-input-rule.
+//
 // Deliberately not checked:
 //   - rule-level matching (C08's subject): policies here use rulegen.SimpleRule only, i.e. at
 //     most two positive match blocks and never protocol+notProtocol, so that C08's findings do
@@ -41,6 +46,7 @@ import (
 	"strings"
 
 	"github.com/sirupsen/logrus"
+	googleproto "google.golang.org/protobuf/proto"
 
 	"github.com/projectcalico/calico/felix/generictables"
 	"github.com/projectcalico/calico/felix/ipsets"
@@ -173,6 +179,65 @@ func passBitLeakVerdict(ep *refpolicy.EndpointPolicy, dir refpolicy.Direction, p
 	return refpolicy.Denied, true
 }
 
+// mixFamilies inserts a CIDR of the other IP family into some CIDR lists of rules that have no
+// explicit ip_version (FilterRuleToIPVersion documents how such rules are handled).
+func mixFamilies(c *harness.Case, l *rulegen.Layout, ipv uint8) {
+	other := []string{"fd00:77::/64", "2001:db8:5::1/128", "fd00:78:1::/48"}
+	if ipv == 6 {
+		other = []string{"172.16.5.0/24", "192.0.2.7/32", "10.200.0.0/16"}
+	}
+	ins := func(l []string) []string {
+		if len(l) == 0 || c.R.Intn(100) >= 15 {
+			return l
+		}
+		i := c.R.Intn(len(l) + 1)
+		out := append([]string(nil), l[:i]...)
+		out = append(out, other[c.R.Intn(len(other))])
+		return append(out, l[i:]...)
+	}
+	for _, r := range l.AllRules() {
+		if r.IpVersion != proto.IPVersion_ANY {
+			continue
+		}
+		r.SrcNet, r.DstNet, r.NotSrcNet, r.NotDstNet = ins(r.SrcNet), ins(r.DstNet), ins(r.NotSrcNet), ins(r.NotDstNet)
+	}
+}
+
+// cloneRef deep-copies every rule of a reference endpoint policy.
+func cloneRef(ep *refpolicy.EndpointPolicy) *refpolicy.EndpointPolicy {
+	cl := func(rs []*proto.Rule) []*proto.Rule {
+		var out []*proto.Rule
+		for _, r := range rs {
+			out = append(out, googleproto.Clone(r).(*proto.Rule))
+		}
+		return out
+	}
+	out := &refpolicy.EndpointPolicy{}
+	seen := map[*refpolicy.Policy]*refpolicy.Policy{}
+	conv := func(p *refpolicy.Policy) *refpolicy.Policy {
+		if q, ok := seen[p]; ok {
+			return q
+		}
+		q := &refpolicy.Policy{Name: p.Name, Staged: p.Staged, Inbound: cl(p.Inbound), Outbound: cl(p.Outbound)}
+		seen[p] = q
+		return q
+	}
+	for _, t := range ep.Tiers {
+		nt := &refpolicy.Tier{Name: t.Name, DefaultAction: t.DefaultAction}
+		for _, p := range t.Ingress {
+			nt.Ingress = append(nt.Ingress, conv(p))
+		}
+		for _, p := range t.Egress {
+			nt.Egress = append(nt.Egress, conv(p))
+		}
+		out.Tiers = append(out.Tiers, nt)
+	}
+	for _, p := range ep.Profiles {
+		out.Profiles = append(out.Profiles, &refpolicy.Profile{Name: p.Name, Inbound: cl(p.Inbound), Outbound: cl(p.Outbound)})
+	}
+	return out
+}
+
 type target struct {
 	name  string // what is evaluated, for witnesses
 	chain *generictables.Chain
@@ -199,6 +264,21 @@ func run(c *harness.Case) {
 		fwdLayout = g.Layout(rulegen.LayoutConfig{IPVersion: ipv, ComplexRulePct: -1, MaxTiers: 2, MaxPolicies: 4, MaxProfiles: -1, NamePrefix: "fwd-"})
 	}
 	sets := g.IPSets()
+
+	// Some CIDR lists get an entry of the OTHER family (rule without ip_version), and the same
+	// rule objects are rendered for the other IP version first (PRNG) and by both renderers, as
+	// Felix renders one ActivePolicyUpdate for IPv4 and IPv6.  The reference works on pristine
+	// deep copies taken now, before the first render, and rendering must leave its input alone.
+	mixFamilies(c, layout, ipv)
+	mixFamilies(c, fwdLayout, ipv)
+	liveRules := append(layout.AllRules(), fwdLayout.AllRules()...)
+	var pristineRules []*proto.Rule
+	for _, r := range liveRules {
+		pristineRules = append(pristineRules, googleproto.Clone(r).(*proto.Rule))
+	}
+	ref, fwdRef := cloneRef(layout.Ref()), cloneRef(fwdLayout.Ref())
+	otherFamilyFirst := c.R.Intn(2) == 0
+	mutationReported := false
 
 	perm := c.R.Perm(32)
 	bit := func(i int) uint32 { return 1 << uint(perm[i]) }
@@ -280,6 +360,20 @@ func run(c *harness.Case) {
 				}
 			}
 		}
+		if otherFamilyFirst {
+			// the other IP version's policy manager renders the same objects first
+			for _, l := range []*rulegen.Layout{layout, fwdLayout} {
+				for _, t := range l.Tiers {
+					for _, p := range t.Policies {
+						renderer.PolicyToIptablesChains(polID(p), &proto.Policy{Namespace: p.Namespace, Tier: t.Name, InboundRules: p.Inbound, OutboundRules: p.Outbound}, 10-ipv)
+					}
+				}
+				for _, p := range l.Profiles {
+					renderer.ProfileToIptablesChains(&types.ProfileID{Name: p.Name}, &proto.Profile{InboundRules: p.Inbound, OutboundRules: p.Outbound}, 10-ipv)
+				}
+			}
+			c.Count("other_family_rendered_first_"+fl, 1)
+		}
 		// policies, profiles and groups of both layouts
 		var profIDs []string
 		for li, l := range []*rulegen.Layout{layout, fwdLayout} {
@@ -323,8 +417,18 @@ func run(c *harness.Case) {
 			}
 		}
 
+		if !mutationReported {
+			for i, r := range liveRules {
+				if !googleproto.Equal(r, pristineRules[i]) {
+					mutationReported = true
+					c.Violationf("render-mutates-input-rule", map[string]any{"renderer": fl, "ipVersion": ipv, "other_family_first": otherFamilyFirst,
+						"rule_before": pristineRules[i].String(), "rule_after": r.String()},
+						"%s v%d: rendering the policy/profile chains changed a proto.Rule it was given: before %s, after %s", fl, ipv, pristineRules[i], r)
+					break
+				}
+			}
+		}
 		tiers, fwdTiers := tierGroups(layout), tierGroups(fwdLayout)
-		ref, fwdRef := layout.Ref(), fwdLayout.Ref()
 		noProf := &refpolicy.EndpointPolicy{Tiers: ref.Tiers}
 		var targets []target
 		switch {
